@@ -296,8 +296,12 @@ class IMAPConnection:
         # previous command was not allowed to report
         wait_on: Event | None = None
         while not done.is_set():
-            untagged = await self._exec(state.receive_updates(cmd, wait_on))
+            untagged = list(await self._exec(
+                state.receive_updates(cmd, wait_on)))
             await shield(self.write_updates(untagged))
+            if any(resp.is_terminal for resp in untagged):
+                # the selected mailbox is gone, BYE has been said
+                raise ConnectionResetError()
             wait_on = done
 
     async def idle(self, state: ConnectionState, cmd: IdleCommand) \
@@ -312,8 +316,17 @@ class IMAPConnection:
         done_task = asyncio.create_task(self.read_idle_done(cmd))
         updates_exc: Exception | None = None
         done_exc: Exception | None = None
+        await asyncio.wait([done_task, updates_task],
+                           return_when=asyncio.FIRST_COMPLETED)
+        if not done_task.done():
+            # the updates have failed, do not wait for the client to notice
+            done_task.cancel()
         try:
             ok = await done_task
+        except CancelledError:
+            if not updates_task.done():
+                raise
+            ok = False
         except Exception as exc:
             done_exc = exc
         finally:
